@@ -2,6 +2,7 @@ package xsdtype
 
 import (
 	"fmt"
+	"regexp"
 	"strconv"
 
 	"github.com/dpb587/rdfkit-go/ontology/xsd/xsdiri"
@@ -10,12 +11,19 @@ import (
 	"github.com/dpb587/rdfkit-go/rdf/objecttypes"
 )
 
+var decimalValidRE = regexp.MustCompile(`^[+-]?([0-9]+(\.[0-9]*)?|\.[0-9]+)$`)
+
 type Decimal float64
 
 var _ objecttypes.Value = Decimal(0)
 
 func MapDecimal(lexicalForm string) (Decimal, error) {
-	vFloat64, err := strconv.ParseFloat(xsdutil.WhiteSpaceCollapse(lexicalForm), 64)
+	lexicalForm = xsdutil.WhiteSpaceCollapse(lexicalForm)
+	if !decimalValidRE.MatchString(lexicalForm) {
+		return Decimal(0), rdf.ErrLiteralLexicalFormNotValid
+	}
+
+	vFloat64, err := strconv.ParseFloat(lexicalForm, 64)
 	if err != nil {
 		return Decimal(0), fmt.Errorf("%w: %v", rdf.ErrLiteralLexicalFormNotValid, err)
 	}
